@@ -208,13 +208,23 @@ def tpl_meth(ch):
            '@specifiers.apply_forwards_to_super("m")\n'
            'class D(Base):\n'
            '    def m(self, {shape}):\n        return super(D, self).m(*{va}, **{vk})\n\n'
-           'inst = C()\ninst2 = C()\ndinst = D()\n'
+           'class E(Base):\n'
+           '    @specifiers.forwards_to_method("target", emulate=True)\n'
+           '    def __init__(self, {shape}):\n        pass\n'
+           '    @specifiers.forwards_to_method("target", emulate=True)\n'
+           '    def __call__(self, {shape}):\n        return self.target(*{va}, **{vk})\n'
+           '    @specifiers.forwards_to_method("target", emulate=True)\n'
+           '    def fe(self, {shape}):\n        return self.target(*{va}, **{vk})\n\n'
+           'inst = C()\ninst2 = C()\ndinst = D()\neinst = object.__new__(E)\n'
            ).format(sep=sep, base_m=base_m, tsep=tsep, target=target,
                     shape=shape[0], va=shape[1], vk=shape[2])
     subjects = {
         'inst.fm': 'inst.fm', 'inst.m': 'inst.m', 'C.fm': 'C.fm', 'C.m': 'C.m',
         'dinst.m': 'dinst.m', 'D.m': 'D.m', 'inst2.fm': 'inst2.fm',
         'inst.plain': 'inst.plain', 'C': 'C',
+        # members wrapped with emulate=True: looked up (hence bound for the first time) by the
+        # retrieval itself when the subject is the class or a callable instance
+        'E': 'E', 'einst': 'einst', 'einst.fe': 'einst.fe',
     }
     return dict(template='meth', params=dict(base_m=base_m, target=target, shape=shape[0]),
                 source=src, subjects=subjects, tags={'forger'})
